@@ -72,6 +72,19 @@ def vf_case(ctx, qs, ss, st, en, mode, sc, cls, dtype, lines, meta):
             ctx.fail("oracle", "TsdFrame.value_from rows/columns broken", inp, impl=w.tolist())
     if iset_ns(r.time_support) != iset_ns(ep) and len(qin):
         ctx.fail("oracle", "value_from support != ep", inp, impl=iset_ns(r.time_support))
+    # integer data beyond 2**53 (nanosecond clocks, identifiers): when every query finds a neighbour the result keeps the integer
+    # dtype and must hold the source values bit for bit
+    if cls == "Tsd" and dtype == "int64" and len(ss) and len(qin) and not any(np.isnan(v) for v in vals):
+        big = (2**60 + 12345) + np.arange(len(ss), dtype=np.int64) * 3 + 1
+        rb = a.value_from(nap.Tsd(farr(ss, sc), big, time_support=full), ep, mode=mode)
+        if rb.values.dtype.kind == "i":
+            want = [int(big[int(v) - 1]) for v in vals] if all(int(v) in range(1, len(ss) + 1) for v in vals) else None
+            if want is not None and [int(x) for x in rb.values] != want and not (mode == "closest"):
+                ctx.fail("oracle", "value_from of int64 data beyond 2**53 does not return the source values exactly", dict(inp, data="2**60+12345+3i+1"),
+                         impl=[int(x) for x in rb.values], expected=want)
+            elif want is not None and mode == "closest" and any(int(x) not in set(int(b_) for b_ in big) for x in rb.values):
+                ctx.fail("oracle", "value_from of int64 data beyond 2**53 returns values that are not source values", dict(inp, data="2**60+12345+3i+1"),
+                         impl=[int(x) for x in rb.values])
     # kernel-level correspondence, arguments as _value_from computes them
     tie = mode == "closest" and any(abs(t1 - q) == abs(t2 - q) and t1 != t2 and iv(t1) == iv(t2) == iv(q)
                                     for q in qin for t1 in ss for t2 in ss)
@@ -102,6 +115,37 @@ def interp_case(ctx, qs, ss, st, en, sc):
     iv = lambda t: next((k for k, (s, e) in enumerate(zip(st, en)) if s <= t <= e), None)
     for variant in ("ep", "own-default", "own-explicit", "default-supports", "tensor-source"):
         _interp_variant(ctx, inp, variant, a, b, ep, qs, ss, vals, st, en, sc, iv)
+    # a source with a STEP: two samples at one instant with different values.  The interpolation passes through both; for a query
+    # that is not the duplicated instant itself the neighbours are unambiguous (left: the LAST sample at or before, right: the FIRST after)
+    if len(ss) >= 2:
+        j = (len(qs) + len(st)) % len(ss)
+        ss2 = ss[:j + 1] + [ss[j]] + ss[j + 1:]
+        vals2 = vals[:j + 1] + [vals[j] + 20] + vals[j + 1:]
+        b2 = nap.Tsd(farr(ss2, sc), np.array(vals2, dtype=float), time_support=b.time_support)
+        r = b2.interpolate(a, ep)
+        qin = [q for q in qs if iv(q) is not None]
+        if ns_arr(r.t) == [q * sc for q in qin]:
+            for q, v in zip(qin, r.values):
+                if q == ss[j]:
+                    continue
+                src = [(t, x) for t, x in zip(ss2, vals2) if iv(t) == iv(q)]
+                if not src:
+                    exp = None
+                elif q < src[0][0]:
+                    exp = Fraction(src[0][1])
+                elif q > src[-1][0]:
+                    exp = Fraction(src[-1][1])
+                else:
+                    jl = max(i for i, (t, _) in enumerate(src) if t <= q)
+                    if src[jl][0] == q:
+                        exp = Fraction(src[jl][1])
+                    else:
+                        (t0, x0), (t1, x1) = src[jl], src[jl + 1]
+                        exp = Fraction(x0) + Fraction(x1 - x0) * Fraction(q - t0, t1 - t0)
+                if (exp is None) != bool(np.isnan(v)) or (exp is not None and abs(float(exp) - v) > 1e-9):
+                    ctx.fail("oracle", "interpolate through a step (duplicate source timestamp %d): query %d got %s expected %s" %
+                             (ss[j], q, v, None if exp is None else float(exp)), dict(inp, ss=ss2, vals=vals2, variant="duplicates"), impl=[float(x) for x in r.values])
+                    break
     # the same call on the Lean model (np.interp over exact rationals, one epoch at a time)
     if ctx.lean:
         o = ctx.lean.run(["interp %s %s %s %s %s" % (enc(sorted(qs)), enc(ss), enc(vals), enc(st), enc(en))])[0]
